@@ -169,6 +169,17 @@ theorem c07_cadence_restart_lagging_duplicates (s d n1 t : Int) (ts2 : List Int)
     (RV.Cadence.restart RV.Cadence.intOps RV.Cadence.intNe s d (n1 + s * d) d t ts2).1.head? = some true :=
   RV.Cadence.restart_lagging_duplicates s d n1 t ts2 hlag
 
+/-- on the repaired source (`fixes/C06-cadence-skip-passed-output-times.diff`) the restart statement holds for EVERY ratio
+    of step and interval: no `hnl` hypothesis -/
+theorem c07_cadence_restart_interval_repaired (s d next0 t : Int) (ts1 ts2 : List Int) (hs : s = 1 ∨ s = -1) (hd : 0 < d)
+    (hfire : s * (RV.Cadence.runR RV.Cadence.intOpsR s d next0 ts1).2 ≤ s * t) :
+    let n1 := (RV.Cadence.hbR RV.Cadence.intOpsR s d (RV.Cadence.runR RV.Cadence.intOpsR s d next0 ts1).2 t).2
+    let rest := RV.Cadence.runR RV.Cadence.intOpsR s d n1 ts2
+    RV.Cadence.runR RV.Cadence.intOpsR s d next0 (ts1 ++ t :: ts2)
+        = ((RV.Cadence.runR RV.Cadence.intOpsR s d next0 ts1).1 ++ true :: rest.1, rest.2) ∧
+    RV.Cadence.restartR RV.Cadence.intOpsR RV.Cadence.intNe s d n1 d t ts2 = (false :: rest.1, rest.2) :=
+  RV.Cadence.restartR_exact s d next0 t ts1 ts2 hs hd hfire
+
 /-- wall-time mode is re-armed unconditionally, the restarted run writes a snapshot at once (documented at
     simulationarchive.c:654) -/
 theorem c07_cadence_restart_walltime_fires (d w : Int) :
